@@ -92,6 +92,38 @@ var modLoaders = map[string]func(string) error{
 	"tls_rule":       func(f string) error { _, e := tls_rule_conf.TlsRuleConfLoad(f); return e },
 }
 
+// further rule loaders, driven with the sample file of the tree (read at run time) as mutation seed
+var modLoadersMore = map[string]string{ // name -> sample file under conf/
+	"auth_request": "mod_auth_request/auth_request_rule.data",
+	"errors":       "mod_errors/errors_rule.data",
+	"key_log":      "mod_key_log/key_log.data",
+	"markdown":     "mod_markdown/mod_markdown.data",
+	"tag":          "mod_tag/tag_rule.data",
+	"trace":        "mod_trace/trace_rule.data",
+	"userid":       "mod_userid/userid_rule.data",
+	"waf":          "mod_waf/waf_rule.data",
+	"mime_type":    "mod_static/mime_type.data",
+	"ip_blocklist": "mod_block/ip_blocklist.data",
+	"server_cert":  "tls_conf/server_cert_conf.data",
+}
+
+var modNamesMore = []string{"auth_request", "errors", "ip_blocklist", "key_log", "markdown", "mime_type", "server_cert", "tag", "trace", "userid", "waf"}
+
+func sampleOf(name string) string {
+	if ex, ok := examples[name]; ok {
+		return ex
+	}
+	rel, ok := modLoadersMore[name]
+	if !ok {
+		return ""
+	}
+	b, err := os.ReadFile(filepath.Join(confRoot(), filepath.FromSlash(rel)))
+	if err != nil {
+		return ""
+	}
+	return string(b)
+}
+
 var modNames = []string{"auth_basic", "auth_jwt", "block", "compress", "cors", "header", "prison", "redirect", "rewrite", "secure_link", "static", "tls_rule", "trust_clientip"}
 
 // sideDir: the shipped examples of auth_basic / auth_jwt name files relative to bfe's bin directory
@@ -116,7 +148,13 @@ func ensureSide() {
 func execMod(name, body string) string {
 	ld, ok := modLoaders[name]
 	if !ok {
-		return "bad-op"
+		rel, ok2 := modLoadersMore[name]
+		if !ok2 {
+			return "bad-op"
+		}
+		cl := confLoaders[rel]
+		root := confRoot()
+		ld = func(f string) error { return cl(f, root) }
 	}
 	ensureSide()
 	if err := ld(writeTmp("mod_"+name+".data", body)); err != nil {
@@ -975,7 +1013,14 @@ func parseOrdered(txt string) interface{} {
 
 func genMod(r *vh.Rand) string {
 	name := modNames[r.Intn(len(modNames))]
-	j := parseOrdered(examples[name])
+	if r.Chance(2, 5) {
+		name = modNamesMore[r.Intn(len(modNamesMore))]
+	}
+	txt := sampleOf(name)
+	if txt == "" {
+		return "moddoc " + modNames[0]
+	}
+	j := parseOrdered(txt)
 	n := r.Range(1, 3)
 	for i := 0; i < n; i++ {
 		j = mutate(r, j, 0)
